@@ -13,7 +13,6 @@ from .. import nbref
 from ..common import lib, viol
 
 PID = "C16"
-ON_LIBRARY_RAISE = "skip"  # the statement is about values that are produced; a raising parse is C01's finding
 LEVEL = "exploration"
 RULE = (
     "Small-scope exhaustive enumeration: every sequence of 2..3 labelled token documents (length 1..3 over the alphabet, both classes present) "
@@ -202,7 +201,11 @@ def _shipped(case):
     norm = re.sub("#[a-zA-Z0-9_-]+", "", m._preprocess_string(text)).strip()
     v = []
     n = 0
-    for cand in gen(text, ts=tsd, timeout=0, latent_time=False):
+    try:
+        cands = list(gen(text, ts=tsd, timeout=0, latent_time=False))
+    except Exception:
+        return {"o": "shipped:parse-raised", "skip": "the parse raised (C01's statement)", "nt": False}
+    for cand in cands:
         if cand is None:
             continue
         n += 1
